@@ -7,7 +7,11 @@ filed under a rule id of the dependent property.  (home module, {home rule id: r
 MIRRORS = {
     # the compiled replay applies a trainable delay to the recorded windows: same arrival predicate, same distribution carried
     # (F1's instance was demonstrated for C10 only and stays there)
-    "C01": [("c10", {"C10.arrival": "C01.protocol", "C10.apply": "C01.protocol"}, {("C10.arrival", "skip=True tie")})],
+    "C01": [("c10", {"C10.arrival": "C01.protocol", "C10.apply": "C01.protocol"}, {("C10.arrival", "skip=True tie")}),
+            # the dependency graph the schedule is computed from carries every message of every window; the recorded group is the group the step
+            # saw; the per-episode graphs keep the episode order of the windowed graphs
+            ("c14", {"C14.convert": ("C01.chain", "WindowedGraph.to_graph")}, ()), ("c03", {"C03.window": "C01.protocol"}, ()),
+            ("c07", {"C07.modes": ("C01.chain", "episode order")}, ())],
     # what a selector takes depends on the queued times only (tie tables), and nothing of an earlier episode survives a reset
     "C02": [("c03", {"C03.tie": "C02.future"}, ()), ("c05", {"C05.reset": "C02.handoff"}, ())],
     # a blocking step waits for the arrival of every message it consumes
